@@ -577,3 +577,17 @@ Proof.
     repeat (apply Forall_cons); try apply Forall_nil; try exact I; try (apply Hf; vm_compute; reflexivity). }
   repeat split; vm_compute; reflexivity.
 Qed.
+
+(* the witness, in the form stated in Props/C10.v *)
+Lemma grammar_witness :
+  Proofs.C10_TSFile.c10_ts_cfg_ok g_cfg = true /\ c10_tsg_cfg_ok g_cfg /\ dom_C10 CTS g_prog = true /\ c10_tsg_dom g_prog /\
+  known_C10 CTS [] g_prog = [] /\
+  ts_generate uc_exec g_cfg g_prog = Ok g_text /\ c10_ts_recognise g_text = Some 8%nat /\
+  contains_sub (lit "export interface Person<T, U> {") g_text = true /\
+  contains_sub (lit "readonly ""first-name""?: string | null;") g_text = true /\
+  contains_sub (lit "| { type: ""Opt"", content?: number | null }") g_text = true /\
+  contains_sub (lit "export const ReplacerFunc = ") g_text = true /\
+  c10_ts_recognise (firstn (List.length g_text - 3) g_text) = None /\
+  c10_ts_recognise (g_drop_first 123 g_text) = None /\
+  c10_ts_recognise (g_subst_first 61 58 g_text) = None.
+Proof. pose proof C10_grammar_nonvacuous as H. decompose [and] H. repeat split; assumption. Qed.
